@@ -17,7 +17,10 @@ TIERS = {
 }
 RULE = ('case = one forest (1-3 roots, depth <= 3) mixing objects that override '
         '_on_change, objects that override only _on_bound, plain/typed objects '
-        '(required and defaulted fields, some built partial), dicts and lists '
+        '(required and defaulted fields, some built partial), functors '
+        '(decorator-made, subclassed, with and without a logging _on_change; '
+        'several arguments: unbound at construction, defaulted, typed to accept '
+        'partial objects / dicts / lists of them), dicts and lists '
         'with and without onchange_callback, and search-space placeholders; '
         'followed by a history of single and batched mutations (every List/Dict '
         'mutator, accessor writes, rebind with 1-5 paths / by function / with '
@@ -26,7 +29,11 @@ RULE = ('case = one forest (1-3 roots, depth <= 3) mixing objects that override 
         'chosen nodes; directed sub-histories: a structural list edit in front of '
         'symbolic elements with notifications suppressed (insert/delete/pop/'
         'remove/slices/reverse/rebind with Insertion or MISSING_VALUE), then a '
-        'notified write inside an element the edit moved. After every step the delivered events are compared with '
+        'notified write inside an element the edit moved; writes into or below '
+        'functor arguments (binding an unbound / defaulted argument, often to a '
+        'PARTIAL value, rebinding, back to unbound by MISSING_VALUE or del, '
+        'assignment, writes inside an argument value) at the functor or through '
+        'an ancestor, half of them with notifications suppressed. After every step the delivered events are compared with '
         'the events expected from the written locations, and every derived fact '
         'of every node with a fresh copy of the tree. Non-trivial = at least 3 '
         'steps returned normally with notification on and delivered an expected '
@@ -36,7 +43,9 @@ REQUIRED_COUNTERS = ['steps_ok', 'event_receiver_checks', 'events_expected_and_d
                      'payload_entries_checked', 'order_pairs_checked',
                      'suppressed_steps_checked', 'derived_fact_comparisons',
                      'derived_changed_steps',
-                     'notified_writes_inside_elements_moved_while_suppressed']
+                     'notified_writes_inside_elements_moved_while_suppressed',
+                     'functor_arg_writes', 'suppressed_binds_of_unbound_functor_args',
+                     'derived_checks_after_functor_arg_writes']
 ASSUMPTIONS = [
     'only public API is observed: _on_change/_on_bound overrides, onchange_callback, FieldUpdate fields, sym_parent, sym_items, the derived-state getters',
     'a batch never has a path that is a prefix of another, never addresses a location through a list that the same batch shortens or lengthens, and never uses Insertion on a dict',
@@ -46,6 +55,9 @@ ASSUMPTIONS = [
     'a call that raises delivers unspecified events; the derived facts must be fresh afterwards all the same',
     'fresh computation = the same getters on pg.from_json(pg.to_json(root), allow_partial=True), confirmed on a copy rebuilt through the public constructors',
     'type checking is on (enable_type_check(False) scopes are not generated); sealing is not generated',
+    'functors: the fresh copies are made from the CONTENTS (every argument whose stored value is not MISSING_VALUE is handed to the constructor / is in the JSON), never from the functor\'s own specified_args / bound_args bookkeeping; which arguments count as specified / bound / default is not judged (not a fact named by the property)',
+    'an unbound functor argument is not missing (documented); no functor argument is a schema-bound Dict without default, whose unbound state the library materialises as a partial dict (whether that counts as missing is left open)',
+    'after a call that wrote into or below a functor argument, the functor and all its ancestors are asked every getter also in the sparse-getter mode',
     'expected locations are the positions found by walking the containers from the receiver (sym_items), never the sym_path the library reports; a history continues over a tree whose only fault is a stale sym_path',
 ]
 
@@ -57,6 +69,66 @@ PARTIAL_OK = ('Required', 'ReqNotifier')
 EXCLUDED_OPS = ('seal',)
 MAY_CLONE_OPS = ('List.__imul__', 'List.*=', 'rebind[fn]')
 P_SCOPE = {'notify_off': 0.1, 'writable': 0.35, 'partial': 0.08}
+
+T = pg.typing
+
+
+# Functors (objects whose class overrides the change handler inside the library:
+# pg.Functor keeps its bound / specified argument sets in `_on_change`). Several
+# arguments each: required ones that stay UNBOUND until a later write, defaulted
+# ones, typed ones that accept partial objects / dicts / lists of them.
+# No argument is a schema-bound Dict without default: an unbound argument of
+# that kind is materialised as a partial dict, and whether "unbound" then
+# counts as "missing" is left open by the property.
+
+@pg.functor([('x', T.Any()), ('y', T.Any()), ('z', T.Any())])
+def fn_any(x, y=1, z=None):
+  return x
+
+
+@pg.functor([('r', T.Object(M.Required)), ('x', T.Any()),
+             ('n', T.Object(M.ReqNotifier).noneable()), ('k', T.Int(min_value=0))])
+def fn_req(r, x, n=None, k=1):
+  return k
+
+
+@pg.functor([('x', T.Any()),
+             ('d', T.Dict([('a', T.Int()), ('b', T.Int(default=2))]).noneable()),
+             ('l', T.List(T.Object(M.Required))), ('m', T.Dict())])
+def fn_cont(x, d=None, l=[], m={}):  # pylint: disable=dangerous-default-value
+  return x
+
+
+class RecFn(fn_req):
+  """A decorator-made functor class, subclassed to log its change events."""
+
+  def _on_change(self, field_updates):
+    M._record(self, 'change', field_updates)  # pylint: disable=protected-access
+    super()._on_change(field_updates)
+
+
+class SubFn(pg.Functor):
+  """A subclassed functor (fields declared on the class) that logs events."""
+  x: T.Any()
+  r: T.Object(M.Required)
+  w: T.Any() = None
+  k: T.Int(min_value=0) = 1
+
+  def _call(self):
+    return self.k
+
+  def _on_change(self, field_updates):
+    M._record(self, 'change', field_updates)  # pylint: disable=protected-access
+    super()._on_change(field_updates)
+
+
+FUNCTORS = {'fn_any': fn_any, 'fn_req': fn_req, 'fn_cont': fn_cont,
+            'RecFn': RecFn, 'SubFn': SubFn}
+FUNCTOR_NAMES = ('fn_any', 'fn_req', 'fn_req', 'fn_cont', 'RecFn', 'SubFn')
+REC_FUNCTORS = (RecFn, SubFn)
+P_BOUND_AT_CONSTRUCTION = 0.4
+P_PARTIAL_ARG = 0.45       # a functor argument is given a partial value
+P_FUNCTOR_STEP = 0.12      # directed write into / below a functor argument
 
 
 # ------------------------------------------------------------ generation ----
@@ -100,6 +172,77 @@ def typed_desc(rng):
   return d
 
 
+def partial_obj_desc(rng, clsname=None):
+  """cls.partial(...) with at least one required field left out."""
+  clsname = clsname or rng.choice(PARTIAL_OK)
+  cls = getattr(M, clsname)
+  d = D.typed_obj(rng, clsname)
+  req = [f for f in d[2] if V.needs_value(cls.__schema__.get_field(f[0]).value)]
+  drop = [f for f in req if rng.random() < 0.5] or [rng.choice(req)]
+  return ['OP', clsname, [f for f in d[2] if f not in drop]]
+
+
+def partial_for(spec, rng):
+  """A description of a PARTIAL value that `spec` accepts inside a value that
+  allows partial members (None: the spec has no partial values)."""
+  if isinstance(spec, pg.typing.Any):
+    p = partial_obj_desc(rng)
+    r = rng.random()
+    if r < 0.2:
+      return ['D', [[V.key(rng, ints=False), p], ['pk', leaf_desc(rng)]]]
+    if r < 0.4:
+      return ['L', [leaf_desc(rng), p]]
+    return p
+  if isinstance(spec, pg.typing.Object) and spec.cls.__name__ in PARTIAL_OK:
+    return partial_obj_desc(rng, spec.cls.__name__)
+  if isinstance(spec, pg.typing.Dict) and spec.schema is not None:
+    full = None
+    for _ in range(8):
+      full = V.value_for(spec, rng, valid=True)
+      if isinstance(full, dict):
+        break
+    if not isinstance(full, dict):
+      return None
+    req = [str(k) for k, f in spec.schema.fields.items()
+           if isinstance(k, pg.typing.ConstStrKey) and V.needs_value(f.value)]
+    if not req:
+      return None
+    drop = [k for k in req if rng.random() < 0.5] or [rng.choice(req)]
+    return ['d', [[k, ['v', v]] for k, v in full.items() if k not in drop]]
+  if isinstance(spec, pg.typing.List):
+    el = partial_for(spec.element.value, rng)
+    if el is None:
+      return None
+    out = [el]
+    if rng.random() < 0.4:
+      full = V.value_for(spec.element.value, rng, valid=True)
+      out.insert(rng.randint(0, 1), ['v', full])
+    return ['l', out]
+  return None
+
+
+def arg_desc(rng, spec, depth=1):
+  """A value for a functor argument at construction."""
+  if rng.random() < P_PARTIAL_ARG:
+    p = partial_for(spec, rng)
+    if p is not None:
+      return p
+  if isinstance(spec, pg.typing.Any):
+    return gen_desc(rng, depth)
+  return ['v', V.value_for(spec, rng, valid=True)]
+
+
+def functor_desc(rng, depth=1):
+  """['F', name, [[arg, desc]...]]: only the listed arguments are bound at
+  construction; the others stay unbound (no default) or at their default."""
+  name = rng.choice(FUNCTOR_NAMES)
+  fields = []
+  for k, f in FUNCTORS[name].__schema__.fields.items():
+    if isinstance(k, pg.typing.ConstStrKey) and rng.random() < P_BOUND_AT_CONSTRUCTION:
+      fields.append([str(k), arg_desc(rng, f.value, depth)])
+  return ['F', name, fields]
+
+
 def dict_key(rng):
   """Mostly identifiers; a few int keys and str keys that contain key-path
   syntax (balanced: an unbalanced bracket is rejected at construction)."""
@@ -127,7 +270,10 @@ def gen_desc(rng, depth=2, symbolic=None):
     return ['D' if sym else 'd', [[kk, sub()] for kk in keys]]
   if r < 0.72 or not sym:
     return ['L' if sym else 'l', [sub() for _ in range(n)]]
-  if rng.random() < 0.5:
+  r2 = rng.random()
+  if r2 < 0.25:
+    return functor_desc(rng, depth - 1)
+  if r2 < 0.6:
     return typed_desc(rng)
   cls = rng.choice(UNTYPED)
   if cls == 'Bound':
@@ -140,7 +286,16 @@ class Builder(N.Recorder):
   def build(self, desc, forest=None):
     if desc[0] == 'H':
       return build_hyper(desc)
+    if desc[0] == 'F':
+      v = FUNCTORS[desc[1]](**{k: self.build(vv, forest) for k, vv in desc[2]})
+      self.register(v, None)
+      return v
     return super().build(desc, forest)
+
+  def subscription(self, node):
+    if isinstance(node, REC_FUNCTORS):
+      return 'change'
+    return super().subscription(node)
 
 
 def make_forest(rng, rec):
@@ -148,7 +303,7 @@ def make_forest(rng, rec):
   for _ in range(rng.choice([1, 1, 2, 3])):
     while True:
       d = gen_desc(rng, 3, symbolic=True)
-      if d[0] in ('D', 'L', 'O', 'OP'):
+      if d[0] in ('D', 'L', 'O', 'OP', 'F'):
         break
     descs.append(d)
   return descs, [rec.build(d) for d in descs]
@@ -158,9 +313,11 @@ class Values:
   """Operand values: spec-aware for typed locations, else random sub-trees;
   occasionally a node that already lives in the forest."""
 
-  def __init__(self, forest, target, p_alias=0.04, p_invalid=0.08):
+  def __init__(self, forest, target, p_alias=0.04, p_invalid=0.08,
+               p_partial_arg=P_PARTIAL_ARG):
     self.forest, self.target = forest, target
     self.p_alias, self.p_invalid = p_alias, p_invalid
+    self.p_partial_arg = p_partial_arg
     self.aliased = False
 
   def __call__(self, rng, node, key):
@@ -170,6 +327,11 @@ class Values:
         field = node.sym_attr_field(key)
       except Exception:  # pylint: disable=broad-except
         field = None
+    if field is not None and isinstance(node, pg.Functor) and \
+        rng.random() < self.p_partial_arg:
+      p = partial_for(field.value, rng)
+      if p is not None:
+        return p
     r = rng.random()
     if field is not None and not isinstance(field.value, pg.typing.Any):
       if r < self.p_invalid:
@@ -258,8 +420,8 @@ def gen_rebind(g, n):
   for rel in rels:
     parent = O.node_at(n, rel[:-1])
     r = g.rng.random()
-    if r < 0.12 and isinstance(parent, (pg.Dict, pg.List)):
-      v = ['missing']
+    if r < 0.12 and isinstance(parent, (pg.Dict, pg.List, pg.Functor)):
+      v = ['missing']       # a functor argument: back to unbound / its default
     elif r < 0.25 and isinstance(parent, pg.List):
       v = ['ins', g.value(parent, rel[-1])]
     else:
@@ -301,6 +463,8 @@ def gen_step(rng, forest, scope_p=None, among=None):
     cands = [o for o in O.ops_for(node, ('mutate', 'flag') if among is None
                                   else ('mutate',))
              if o.name not in EXCLUDED_OPS]
+    if isinstance(node, pg.Functor):
+      cands.append(FUNCTOR_DELATTR)
     if not cands:
       continue
     o = rng.choices(cands, [OP_WEIGHT.get(x.name, 1.0) for x in cands])[0]
@@ -393,6 +557,130 @@ def gen_shift_step(rng, forest):
   return {'op': op, 'at': at, 'args': args, 'scopes': scopes}
 
 
+def _gen_delattr(g, f):
+  keys = list(f.sym_keys())
+  return {'k': g.rng.choice(keys)} if keys else None
+
+
+def _run_delattr(f, a, B):
+  del B
+  delattr(f, a['k'])
+
+
+# `del functor.arg` (Functor.__delattr__: back to unbound / the default). The
+# kind 'Functor' is never returned by gen.ops.ops_for: only this module draws it.
+FUNCTOR_DELATTR = O.OPS.setdefault('Functor.__delattr__', O.Op(
+    'Functor.__delattr__', 'Functor', _gen_delattr, _run_delattr))
+
+
+def gen_functor_step(rng, forest):
+  """A write into (or below) an argument of a functor that lives in the forest:
+  binding an argument that was left unbound / at its default (often to a
+  PARTIAL value), rebinding a bound one, taking it back to unbound (rebind to
+  MISSING_VALUE, `del f.arg`), assignment, or a write inside a symbolic argument
+  value; issued at the functor or through a deep path from an ancestor, half of
+  the time with notifications suppressed (scope or skip_notification=True)."""
+  cands = [(ri, ks, n) for ri, ks, n in H.all_nodes(forest)
+           if isinstance(n, pg.Functor) and not in_hyper(forest, ri, ks)]
+  if not cands:
+    return None
+  ridx, keys, fn = rng.choice(cands)
+  names = list(fn.sym_keys())
+  if not names:
+    return None
+  g = O.GenEnv(rng, Values(forest, (ridx, keys), p_alias=0.0, p_invalid=0.04,
+                           p_partial_arg=0.6), forest)
+  kind = rng.choice(['bind', 'bind', 'bind', 'bind', 'unbind', 'inner', 'inner',
+                     'delattr', 'setattr'])
+  quiet = rng.random() < 0.5
+  scopes = [name for name, p in FOLLOW_SCOPE.items() if rng.random() < p]
+  # An argument the constructor did not get is the more interesting target.
+  later = [a for a in names if a not in fn.specified_args]
+  arg = rng.choice(later if later and rng.random() < 0.65 else names)
+  if kind == 'delattr':
+    bound = [a for a in names if a in fn.specified_args]
+    arg = rng.choice(bound) if bound and rng.random() < 0.8 else arg
+    return {'op': 'Functor.__delattr__', 'at': [ridx, list(keys)], 'args': {'k': arg},
+            'scopes': scopes + (['notify_off'] if quiet else [])}
+  if kind == 'setattr':
+    return {'op': 'Object.__setattr__', 'at': [ridx, list(keys)],
+            'args': {'k': arg, 'v': g.value(fn, arg)},
+            'scopes': sorted(set(scopes + ['writable'] + (['notify_off'] if quiet else [])))}
+  rel, v = None, None
+  if kind == 'inner':
+    targets = [t for t in O.rel_targets(fn, rng) if len(t) >= 2
+               and not through_hyper(fn, t)]
+    if targets:
+      rel = rng.choice(targets)
+      parent = O.node_at(fn, rel[:-1])
+      if rng.random() < 0.12 and isinstance(parent, (pg.Dict, pg.List)):
+        v = ['missing']
+      else:
+        v = g.value(parent, rel[-1])
+  if rel is None:
+    rel = [arg]
+    if kind == 'unbind':
+      bound = [a for a in names if a in fn.specified_args]
+      if bound and rng.random() < 0.8:
+        rel = [rng.choice(bound)]
+      v = ['missing']
+    else:
+      v = g.value(fn, arg)
+  at = [ridx, list(keys)]
+  if keys and rng.random() < 0.5:            # issued from an ancestor
+    k = rng.randrange(len(keys))
+    at, rel = [ridx, list(keys[:k])], list(keys[k:]) + rel
+  opts = {}
+  if quiet:
+    if rng.random() < 0.5:
+      opts['skip_notification'] = True
+    else:
+      scopes.append('notify_off')
+  return {'op': 'rebind', 'at': at,
+          'args': {'updates': [[rel, v]], 'opts': opts, 'form': 'dict',
+                   'style': rng.choice(['raw', 'keypath', 'str']),
+                   'api': rng.choice(['rebind', 'sym_rebind'])},
+          'scopes': scopes}
+
+
+def note_functor_writes(forest, post, w, suppressed, fn_written, c):
+  """Collects into `fn_written` the (Info of the functor, direct?) pairs for
+  every functor that holds a written location as one of its arguments (direct)
+  or somewhere below one of its arguments."""
+  for cid, _, old_v, new_v, _ in w.entries:
+    ci = post.info.get(cid)
+    if ci is None:
+      continue
+    for k in range(len(ci.keys) + 1):
+      try:
+        anc = D.resolve(forest, ci.ridx, list(ci.keys[:k]))
+      except Exception:  # pylint: disable=broad-except
+        break
+      if not isinstance(anc, pg.Functor):
+        continue
+      fi, direct = post.get(anc), k == len(ci.keys)
+      if fi is None:
+        continue
+      for j, (x, d) in enumerate(fn_written):
+        if x is fi:
+          fn_written[j] = (x, d or direct)
+          break
+      else:
+        fn_written.append((fi, direct))
+      if c is None:
+        continue
+      if not direct:
+        c['writes_below_functor_args'] += 1
+        continue
+      c['functor_arg_writes'] += 1
+      c['suppressed_functor_arg_writes'] += suppressed
+      if N.is_missing(old_v) and not N.is_missing(new_v):
+        c['binds_of_unbound_functor_args'] += 1
+        c['suppressed_binds_of_unbound_functor_args'] += suppressed
+      elif N.is_missing(new_v):
+        c['functor_args_taken_back_to_unbound'] += 1
+
+
 def moved_nodes(pre, post):
   """Symbolic nodes that the call left in the tree at another position."""
   out = []
@@ -435,6 +723,18 @@ def mechanism(step, status, derived):
   if step['args'].get('opts', {}).get('notify_parents') is False:
     m += '@notify_parents=False'
   return m
+
+
+def derived_mechanism(step, status, fn_written):
+  """Mechanism of a stale derived fact. A call that wrote an argument of a
+  functor, or below one, is one class of input whatever the operation: how the
+  call ended / whether it notified + where the written location is."""
+  if not fn_written:
+    return mechanism(step, status, True)
+  how = ('rejected-call' if status == 'raise' else
+         'notify-suppressed' if H.notify_suppressed(step) else 'notified-write')
+  return how + ('@functor-arg' if any(d for _, d in fn_written)
+                else '@below-functor-arg')
 
 
 # ------------------------------------------------------------------ case ----
@@ -489,6 +789,7 @@ def run_case(ctx, i):
   moved, moved_by, follow_left = [], None, 0
   stale_origin = None     # mechanism of the step that left library paths stale
   p_shift = ctx.params.get('p_shift', 0.1)
+  p_fn = ctx.params.get('p_functor_step', P_FUNCTOR_STEP)
   for _ in range(n_steps):
     step, aliased, follow_up = None, False, False
     if moved and follow_left > 0 and rng.random() < (0.9 if moved_by[1] else 0.35):
@@ -499,6 +800,12 @@ def run_case(ctx, i):
     elif rng.random() < p_shift:
       step = gen_shift_step(rng, forest)
       c['directed_suppressed_shift_steps'] += step is not None
+    elif rng.random() < p_fn:
+      step = gen_functor_step(rng, forest)
+      if step is not None and step['op'] == 'rebind' and not rebind_ok(
+          step, D.resolve(forest, step['at'][0], step['at'][1])):
+        step = None
+      c['directed_functor_steps'] += step is not None
     if step is None:
       step, aliased = gen_step(rng, forest, scope_p)
     if step is None:
@@ -522,6 +829,7 @@ def run_case(ctx, i):
     c['op:' + step['op']] += 1
     suppressed = H.notify_suppressed(step)
     heal = False
+    fn_written = []     # functors one of whose arguments the call wrote
 
     if status == 'ok':
       c['steps_ok'] += 1
@@ -531,6 +839,15 @@ def run_case(ctx, i):
         c['rebind_paths:%d' % len(step['args']['updates'])] += 1
       before = c['events_expected_and_delivered']
       w = N.written(step, target, pre, post, c)
+      if step['op'] == 'Functor.__delattr__' and post.get(target) is not None:
+        # The location the call was asked to write: when the argument already
+        # is at its default / unbound, an event for it is left open (as for a
+        # rebind to MISSING_VALUE that restores an identical default).
+        k = step['args']['k']
+        if not any(e[0] == id(target) and e[1] == k for e in w.entries):
+          w.entries.append((id(target), k, dict(pre.get(target).members).get(k, N.MISSING),
+                            dict(post.get(target).members).get(k, N.MISSING), False))
+      note_functor_writes(forest, post, w, suppressed, fn_written, c)
       below = target if step['args'].get('opts', {}).get(
           'notify_parents') is False else None
       if below is not None:
@@ -569,15 +886,30 @@ def run_case(ctx, i):
     else:
       c['steps_rejected'] += 1
       c['rejected:' + type(result).__name__] += 1
+      try:      # a rejected batch may have written some of its locations
+        note_functor_writes(forest, post, N.written(step, target, pre, post),
+                            suppressed, fn_written, None)
+      except Exception:  # pylint: disable=broad-except
+        c['written_of_rejected_call_not_computed'] += 1
       if events:
         c['events_of_rejected_calls'] += len(events)
 
     # Derived state: every getter on every node vs fresh copies.
     ctx.label = 'derived-getters'
     post_facts = DV.touch(forest, c, srng)
+    if sparse:
+      # After a write into a functor argument the functor and its ancestors are
+      # asked every getter, whatever the sparse selection says: their answers
+      # are judged right after the write that could make them stale.
+      for fi, _ in fn_written:
+        for k in range(len(fi.keys) + 1):
+          anc = D.resolve(forest, fi.ridx, list(fi.keys[:k]))
+          if isinstance(anc, pg.Symbolic) and not isinstance(anc, pg.Ref):
+            post_facts[(fi.ridx, tuple(fi.keys[:k]))] = DV.read(anc)
     stale = DV.check(forest, c, post_facts)
     ctx.label = None
     c['derived_checks'] += 1
+    c['derived_checks_after_functor_arg_writes'] += bool(fn_written)
     if DV.root_facts_changed(pre_facts, post_facts):
       derived_changed += 1
       c['derived_changed_steps'] += 1
@@ -586,7 +918,8 @@ def run_case(ctx, i):
       ridx, keys, tname, fact, live, fresh = stale[0]
       names = sorted({s[3] for s in stale})
       ctx.violation(
-          'stale-derived', mechanism(step, status, True) + ('@sparse-getters' if sparse else ''),
+          'stale-derived', derived_mechanism(step, status, fn_written) +
+          ('@sparse-getters' if sparse and not fn_written else ''),
           f'after step {len(trace)}: {trace[-1]}\n{len(stale)} stale answers '
           f'({names}); first: {tname} at root{ridx}{keys} {fact} = '
           f'{live[1]!r:.300}, fresh copy says {fresh[1]!r:.300}', witness())
